@@ -115,7 +115,8 @@ probe_command = S.struct_probe_command
 def build_corpus(tier, rng):
     c = Corpus(ID)
     thorough = tier == "thorough"
-    cands = systematic()
+    from props import c01 as _c01
+    cands = systematic() + _c01.namesake_items()
     for _ in range(300 if thorough else 40):
         it = G.string_enum(rng, nvariants=rng.randint(2, 7))
         if not any(v.has("default") for v in it.variants):
